@@ -723,6 +723,11 @@ def r8_4_write_after_auth(ctx, prog, rule="R8.4"):
             else:
                 if has_integrity and mac != 1:
                     ok, why = False, "Retry although the integrity attribute did not verify (mac=%s)" % mac
+                elif mac != 1 and not (mi == "None" and sha == "None"):
+                    # an unauthenticated Retry is for a response that carries NO integrity attribute: the path must have
+                    # established the absence of both kinds (looking only at the negotiated kind lets a response with the
+                    # other kind through unauthenticated)
+                    ok, why = False, "unauthenticated Retry on a path that did not establish the absence of both integrity attributes (mi %s, sha %s)" % (mi or "not examined", sha or "not examined")
                 vi = pa.index_of(r"validate_message_integrity$")
                 wi = [i for i, e in enumerate(pa.log) if e[0] == "write" and (e[1] == "lt" or "lt.params" in str(e[1]))]
                 if has_integrity and ok and (vi < 0 or (wi and min(wi) < vi)):
